@@ -74,6 +74,16 @@ func runNestedSeq(ns nestedSeq, mon *lib.Monitor) {
 		}
 		return &fieldmaskpb.FieldMask{Paths: g.TopPaths(md, 2)}
 	}
+	// read masks: nil, empty, or 1-3 paths from the message's path tree (nested, through repeated messages)
+	rmask := func() *fieldmaskpb.FieldMask {
+		switch r.Intn(10) {
+		case 0, 1, 2:
+			return nil
+		case 3:
+			return &fieldmaskpb.FieldMask{}
+		}
+		return &fieldmaskpb.FieldMask{Paths: g.ReadMaskPaths(md, 3)}
+	}
 	src := func() proto.Message {
 		if len(owned) > 0 && r.Intn(5) == 0 {
 			return owned[r.Intn(len(owned))] // re-use a message handed to an earlier write
@@ -106,7 +116,7 @@ func runNestedSeq(ns nestedSeq, mon *lib.Monitor) {
 			tr.observe("Value.Set/ret", res)
 		case x < 5:
 			readOnly, before = true, storeImage()
-			rm := mask()
+			rm := rmask()
 			res := val.Get(resource.WithReadMask(rm))
 			op = fmt.Sprintf("Value.Get(mask=%v)", rm.GetPaths())
 			tr.observe("Value.Get/ret", res)
@@ -114,7 +124,7 @@ func runNestedSeq(ns nestedSeq, mon *lib.Monitor) {
 			readOnly, before = true, storeImage()
 			ctx, cancel := context.WithCancel(context.Background())
 			cancels = append(cancels, cancel)
-			rm := mask()
+			rm := rmask()
 			drainV(val.Pull(ctx, resource.WithReadMask(rm), resource.WithBackpressure(true)), "Value.Pull")
 			op = fmt.Sprintf("Value.Pull(mask=%v)", rm.GetPaths())
 		case x < 9:
@@ -131,7 +141,7 @@ func runNestedSeq(ns nestedSeq, mon *lib.Monitor) {
 			tr.observe("Collection.Delete/ret", res)
 		case x < 11:
 			readOnly, before = true, storeImage()
-			rm := mask()
+			rm := rmask()
 			op = fmt.Sprintf("Collection.List(mask=%v)", rm.GetPaths())
 			for _, m := range coll.List(resource.WithReadMask(rm)) {
 				tr.observe("Collection.List/ret[]", m)
@@ -139,7 +149,7 @@ func runNestedSeq(ns nestedSeq, mon *lib.Monitor) {
 		case x < 12:
 			readOnly, before = true, storeImage()
 			id := g.Str()
-			rm := mask()
+			rm := rmask()
 			res, _ := coll.Get(id, resource.WithReadMask(rm))
 			op = fmt.Sprintf("Collection.Get(%s, mask=%v)", id, rm.GetPaths())
 			tr.observe("Collection.Get/ret", res)
@@ -147,7 +157,7 @@ func runNestedSeq(ns nestedSeq, mon *lib.Monitor) {
 			readOnly, before = true, storeImage()
 			ctx, cancel := context.WithCancel(context.Background())
 			cancels = append(cancels, cancel)
-			rm := mask()
+			rm := rmask()
 			drainC(coll.Pull(ctx, resource.WithReadMask(rm), resource.WithBackpressure(true)), "Collection.Pull")
 			op = fmt.Sprintf("Collection.Pull(mask=%v)", rm.GetPaths())
 		default:
